@@ -59,14 +59,14 @@ theorem forest_certificate [DecidableEq β] (name : β → Str) (hname : Functio
     GAP (why `_partial`): the hypothesis is the certificate, not the natural conditions of the property
     text; see `encoder_roundtrip_natural` below. -/
 theorem encoder_roundtrip_partial [DecidableEq β] (mode11 : Bool) (base : Option Str) (cfg : Cfg β)
-    (hl : Function.Injective cfg.label) (d : List (DQuad β)) (ord : List (Term β))
-    (h : encCert mode11 base cfg d ord = true) :
-    ∃ doc out, encode cfg d ord = some doc ∧ toRdf mode11 base doc = some out ∧ Spec.IsoQ out d := by
+    (hl : Function.Injective cfg.label) (d : List (DQuad β)) (ord ord2 : List (Term β))
+    (h : encCert mode11 base cfg d ord ord2 = true) :
+    ∃ doc out, encode cfg d ord ord2 = some doc ∧ toRdf mode11 base doc = some out ∧ Spec.IsoQ out d := by
   unfold encCert at h
-  cases he : encode cfg d ord with
+  cases he : encode cfg d ord ord2 with
   | none => simp [he] at h
   | some doc =>
-    cases hf : encForest cfg d ord with
+    cases hf : encForest cfg d ord ord2 with
     | none => simp [he, hf] at h
     | some F =>
       simp only [he, hf, Bool.and_eq_true, decide_eq_true_eq] at h
@@ -74,8 +74,9 @@ theorem encoder_roundtrip_partial [DecidableEq β] (mode11 : Bool) (base : Optio
 
 /-- The statement at the strength of the property text for the encoder direction: default-graph datasets
     without literals of the natively written datatypes and without cycles of once-referenced blank nodes
-    (`acyclic`: the hypothesis of property C17, a parameter here so that this file does not depend on
-    C17's development), prefix tables and base arbitrary. NOT PROVED. What is missing: a proof that under
+    (`acyclic`: the hypothesis of property C17 before patch fix-c17-export-cycles, a parameter here so that
+    this file does not depend on C17's development; with the repaired export the harness finds the
+    certificate to hold for cyclic datasets as well, so `acyclic` may be taken to be `fun _ => True`), prefix tables and base arbitrary. NOT PROVED. What is missing: a proof that under
     these conditions the certificate holds, i.e. (a) that `processLocal` of the `@context` the encoder
     writes yields exactly the used prefixes as prefix terms, (b) that `expandIri` inverts
     `compactVocabIRI` / `compactDocumentIRI` (rests on C13's round-trip theorem and on the agreement of
@@ -85,10 +86,10 @@ theorem encoder_roundtrip_partial [DecidableEq β] (mode11 : Bool) (base : Optio
     IRI of the dataset has a scheme equal to a used prefix (finding C10-K2): the full statement carries
     that exclusion as `schemeClash`. -/
 def encoder_roundtrip_natural [DecidableEq β] (acyclic : List (DQuad β) → Prop) (schemeClash : Cfg β → List (DQuad β) → Prop) : Prop :=
-  ∀ (mode11 : Bool) (base : Option Str) (cfg : Cfg β) (d : List (DQuad β)) (ord : List (Term β)),
+  ∀ (mode11 : Bool) (base : Option Str) (cfg : Cfg β) (d : List (DQuad β)) (ord ord2 : List (Term β)),
     Function.Injective cfg.label → WFDataset d → defaultGraphOnly d = true → noNativeTyped d = true →
-    acyclic d → ¬ schemeClash cfg d → ord.Perm (defaultOrd d) →
-    ∃ doc out, encode cfg d ord = some doc ∧ toRdf mode11 base doc = some out ∧ Spec.IsoQ out d
+    acyclic d → ¬ schemeClash cfg d → ord.Perm (defaultOrd d) → ord2.Perm (defaultOrd d) →
+    ∃ doc out, encode cfg d ord ord2 = some doc ∧ toRdf mode11 base doc = some out ∧ Spec.IsoQ out d
 
 /-! ### Non-vacuity: a dataset with a named graph, a shared blank node and a language-tagged literal -/
 
@@ -125,7 +126,7 @@ theorem wf : WFDataset d := by decide
 theorem validated : (tryWrite name d ch).isSome = true := by decide
 
 /-- the certificate of `encoder_roundtrip_partial` holds on this instance -/
-theorem cert : encCert true none cfg d0 (defaultOrd d0) = true := by decide
+theorem cert : encCert true none cfg d0 (defaultOrd d0) (defaultOrd d0) = true := by decide
 
 /-- the conditions of the full statement hold on this instance as well -/
 theorem natural : WFDataset d0 ∧ defaultGraphOnly d0 = true ∧ noNativeTyped d0 = true ∧ schemeClash cfg d0 = false := by
